@@ -99,7 +99,7 @@ def _full(o):
     return Outer(n=1, inner=Inner(x=1, s='a', t='tt'), sub=Sub(x=9, s='s', t='u', extra=3), sub2=Sub2(fb=1, fs='f', own=2),
                  items=[Inner(x=1, s='a', t='b'), Inner(x=2, s='c', t='d')], tags=['p', 'q'],
                  when=dt.datetime(2020, 1, 1, 0, 0, 0, 5, PRIM_VALUES[2]['t'].tzinfo), amount=decimal.Decimal('1.50'), code=7,
-                 must=5, amount2=Amount(value=decimal.Decimal('0'), unit='kg', ratio=decimal.Decimal('1.5'), since=dt.date(2020, 1, 2)), flag=Flag(on=False, count=0), word=u'Gr\xf6\xdfe', digits=u'42', small=5)
+                 must=5, amount2=Amount(value=decimal.Decimal('0'), unit='kg', ratio=decimal.Decimal('1.5'), since=dt.date(2020, 1, 2)), flag=Flag(on=False, count=0), word=u'Gr\xf6\xdfe', digits=u'42', small=5, i8=-2 ** 7, i16=2 ** 15 - 1, i64=-2 ** 63, u8=255, u64=2 ** 64 - 1)
 
 
 def _mk_roundtrip(family, wrappers, as_list, validator):
